@@ -176,7 +176,7 @@ class Ctx:
             t = self.unconst(t)
         if t[0] == 'pair':
             return Key(t[1], t[2], False)
-        if t[0] in ('call', 'mcall') and t[1].endswith('::orderedEdge'):
+        if t[0] in ('call', 'mcall') and (t[1] == self.m.ordered_edge() or t[1].endswith('::orderedEdge')):
             args = t[-1]
             return Key(args[0], args[1], True)
         if t[0] == 'var' and depth < 3:
